@@ -109,8 +109,14 @@ func c08Run(cfg engine.Config, ops []engine.Op, big bool) (e *engine.Engine, han
 							failed = true
 						}
 					}
+					// out of space reported without the OutOfMemory kind (the kind of the cause is not always kept)
+					nospace := strings.Contains(eng.LastErrText, "not enough space") || strings.Contains(eng.LastErrText, "out of memory") ||
+						strings.Contains(eng.LastErrText, "failed to flush dirty pages") // flushPages only fails when no overwrite page can be allocated; the cause is not attached
+					if !failed && nospace {
+						continue
+					}
 					if !failed {
-						eng.Fail("spurious-commit-failure: Commit fails (%s) although no I/O call failed since the transaction began", res.Err)
+						eng.Fail("spurious-commit-failure: Commit fails (%s: %s) although no I/O call failed since the transaction began", res.Err, trunc(eng.LastErrText, 300))
 					} else if op.Kind == "commit-must-succeed" {
 						eng.Fail("after the I/O failures stopped a commit still fails: %s", res.Err)
 					}
